@@ -95,6 +95,10 @@ def detect_fixed_format(file_lines: list[str]) -> bool:
             continue
         if FRegex.FREE_FORMAT_TEST.match(line):
             return False
+        # Column 1 of a fixed form line is blank, a digit of a label or a comment
+        # character (C, D, *, !): any other letter there can only be free form
+        if line[:1].isalpha() and line[0] not in "cCdD":
+            return False
         tmp_match = FRegex.VAR.match(line)
         if tmp_match and tmp_match.start(1) < 6:
             return False
